@@ -89,7 +89,7 @@ def run(tier, seed):
            "rule": "TLC enumerates (1) every string of length <= %d over {v,0,1,9,.,-,a} plus long/odd extras with its parse result, and "
                    "every ordered pair of a stratified subset with Compare / Decision(--update) / notice; (2) every checksums.txt of <= 3 "
                    "lines over 5 similarly named assets; (3) every state of the 72 h throttle automaton reachable in <= %d invocations over "
-                   "dt in {0,1,71,72,73} h x network {fail, older, same, newer, garbage} x disabled-by-env, with all successors. The harness "
+                   "dt in {0, 20 min, 71 h 20 min, 72 h - 20 min, 72 h, 72 h + 20 min, 73 h} (instants not aligned to hours) x network {fail, older, same, newer, garbage} x disabled-by-env, with all successors. The harness "
                    "includes update_manager.cpp, stubs clock and network through the BLOCH_VERIF hooks and replays every case: parse and "
                    "compare results, the decision gate of performSelfUpdate, the notice, the checksum line, and for every throttle transition "
                    "the printed notice and the cache file after the call (the cache file is installed from the spec state before the call)." % (maxlen, steps)}
